@@ -91,7 +91,7 @@ def scenarios_for(pid, devs, rng, tier, shapes):
                         if st["k"] == "sig" and st["id"] == tgt:
                             if len(st["disclosed"]) < d.get("need_disclosed", 0):
                                 ok = False
-                            if dev["k"] == "false_reported_swap" and len(st["disclosed"]) >= 2:
+                            if dev["k"] in ("false_reported_swap", "swap_disclosed_everywhere") and len(st["disclosed"]) >= 2:
                                 cl = s["creds"][st["cred"]]["claims"]
                                 a, b = st["disclosed"][0], st["disclosed"][1]
                                 # the two swapped claims must differ, also across credentials sharing the schema
